@@ -3,6 +3,7 @@ package sse
 import (
 	"net/http"
 	"sync"
+	"time"
 )
 
 // C13 — each event reaches exactly the callbacks subscribed to its type.
@@ -42,11 +43,54 @@ func vhC13() {
 	verifGuardStruct(&c.mu, c)
 	var subs []*vhSubSpec
 	var log []vhCall
+	// Native confirmation of a lock-discipline counterexample: the same operation sequence runs
+	// under the Go race detector while a second goroutine keeps dispatching events of every
+	// type subscribed so far (assertions are skipped, the detector is the oracle).
+	race := !verifSymbolic() && verifParam("VERIF_RACE", 0) == 1
+	var raceMu sync.Mutex
+	raceTypes := []string{""}
+	stop := make(chan struct{})
+	var bg sync.WaitGroup
+	if race {
+		bg.Add(1)
+		go func() {
+			defer bg.Done()
+			for {
+				select {
+				case <-stop:
+					return
+				default:
+				}
+				raceMu.Lock()
+				ts := append([]string{}, raceTypes...)
+				raceMu.Unlock()
+				for _, t := range ts {
+					c.dispatch(Event{Type: t})
+				}
+			}
+		}()
+		defer func() {
+			time.Sleep(20 * time.Millisecond)
+			close(stop)
+			bg.Wait()
+		}()
+	}
+	noteType := func(t string) {
+		if race {
+			raceMu.Lock()
+			raceTypes = append(raceTypes, t)
+			raceMu.Unlock()
+			time.Sleep(2 * time.Millisecond)
+		}
+	}
 	// a second goroutine that unsubscribes while a dispatch is in progress:
 	// it gets its chance whenever a callback runs, and completes only if it can take the lock
 	concurrentRemove := -1
 	removedDuringDispatch := false
 	mkcb := func(idx int) EventCallback {
+		if race {
+			return func(Event) {}
+		}
 		return func(e Event) {
 			log = append(log, vhCall{idx, e})
 			if concurrentRemove >= 0 && concurrentRemove < len(subs) && vhLockFree(&c.mu) {
@@ -65,8 +109,9 @@ func vhC13() {
 	for op := 0; op < k; op++ {
 		switch verifChoose("op", 5) {
 		case 0:
-			t := verifNondetString("type", 1)
+			t := vhC13Type("type")
 			s := &vhSubSpec{kind: 0, typ: t, active: true, removedAt: -1}
+			noteType(t)
 			s.remove = c.SubscribeEvent(t, mkcb(len(subs)))
 			subs = append(subs, s)
 		case 1:
@@ -81,6 +126,10 @@ func vhC13() {
 			if len(subs) > 0 {
 				j := verifChoose("remover", len(subs))
 				subs[j].remove() // possibly repeated or stale: must be harmless
+				if race {
+					time.Sleep(2 * time.Millisecond)
+					continue
+				}
 				subs[j].active = false
 				if subs[j].removedAt < 0 {
 					subs[j].removedAt = len(log)
@@ -88,7 +137,11 @@ func vhC13() {
 				verifCover("C13/removed")
 			}
 		case 4:
-			ev := Event{Type: verifNondetString("evtype", 1), Data: "d", LastEventID: "i"}
+			ev := Event{Type: vhC13Type("evtype"), Data: "d", LastEventID: "i"}
+			if race {
+				c.dispatch(ev)
+				continue
+			}
 			if len(subs) > 1 && verifChoose("concurrent", 2) == 1 {
 				concurrentRemove = verifChoose("cremove", len(subs))
 			}
@@ -142,4 +195,16 @@ func vhC13() {
 	if dispatched > 0 && len(subs) > 0 {
 		verifCover("C13/history-with-dispatch")
 	}
+}
+
+// event types: an arbitrary string of <= 1 byte, or one of the names that are special
+// somewhere (EventSource's default type, wildcards)
+func vhC13Type(tag string) string {
+	switch verifChoose(tag+".kind", verifParam("TYPEKINDS", 3)) {
+	case 1:
+		return "message"
+	case 2:
+		return "*"
+	}
+	return verifNondetString(tag, 1)
 }
